@@ -591,7 +591,7 @@ def _monotone_case(rng, t):
         return {"mono": True, "climb": True, "surrogate": sur, "scaler": "auto" if sur == "GP" and rng.random() < 0.5 else "identity",
                 "strategy": strat, "nobj": rng.choice([2, 2, 3]), "K": K,
                 "sign": ["pos", "neg", "mixed"][(t // 2) % 3], "seed": rng.randrange(1 << 20), "init": init,
-                "n_evals": 8 + (14 if sur == "GP" else 24)}
+                "n_evals": 8 + (20 if sur == "GP" else 24)}
     return {"mono": True, "surrogate": SURROGATES[t % 3], "scaler": SCALERS[(t // 3) % 4], "strategy": STRATS[t % 5], "nobj": rng.choice([0, 2, 3]), "K": 20,
             "sign": ["pos", "neg", "mixed"][(t // 2) % 3], "seed": rng.randrange(1 << 20), "n_evals": 26 if SURROGATES[t % 3] == "GP" else 36}
 
@@ -661,9 +661,10 @@ def _judge_mono(ck, case, obs, eff):
         late = a[-6:]
         mean_late = sum(late) / len(late)
         best_init = max(init)
-        # half way between the best initial point and the maximiser: a search that keeps climbing ends far above it,
-        # a search pulled back to the best point of its first surrogate fit ends at best_init
-        thr = best_init + 0.5 * (top - best_init)
+        # a search that keeps climbing has covered, at the end, well over 20 % of the way from the best initial point to
+        # the maximiser (measured on correct code: >= 30 % in the slowest combination, GP + Quadratic, >= 80 % elsewhere);
+        # a search pulled back to the best point of its first surrogate fit stays below 15 %
+        thr = best_init + 0.2 * (top - best_init)
         ck.count("climb:late-mean>=0.9top" if mean_late >= 0.9 * top else "climb:late-mean<0.9top")
         if mean_late <= thr:
             ck.fail(_fp("stuck-below-maximiser", case, eff, "CBO.search"),
